@@ -491,17 +491,18 @@ def run():
             "ego": lambda: build_ego(sd),
             "mc": lambda: vf.tlc(SPEC, "SqlLit", "SqlLit_MC.cfg" if thorough else "SqlLit_MCq.cfg", sd, workers=litw, timeout=1500),
             "asis": lambda: vf.tlc(SPEC, "SqlLit", "SqlLit_MC_asis.cfg", sd, workers=2, timeout=600),
-            "asisv": lambda: vf.tlc(SPEC, "SqlLit", "SqlLit_MC_asis_value.cfg", sd, workers=2, timeout=600),
             "gen": lambda: vf.tlc(SPEC, "SqlFilter_Gen", "SqlFilter_Gen.cfg" if thorough else "SqlFilter_Genq.cfg", sd, workers=1,
                                   seed=vf.SEED, timeout=1500),
             "cand": lambda: vf.tlc(SPEC, "SqlLit_Gen", "SqlLit_Gen.cfg" if thorough else "SqlLit_Genq.cfg", sd, workers=1,
                                    seed=vf.SEED, timeout=1500),
         }
+        if thorough:
+            jobs["asisv"] = lambda: vf.tlc(SPEC, "SqlLit", "SqlLit_MC_asis_value.cfg", sd, workers=2, timeout=600)
         R = par(jobs)
         # 1. the repair design keeps literal boundaries and values (exhaustive at the bound)
         chk.add_tlc(vf.tlc_ok(R["mc"], "SqlLit MC"), "SqlLit MC, quote-doubling design: StructKept, ValuesKept")
         # 2. negative controls: the as-is screening design must violate both (vacuity guard)
-        for nm, inv in (("asis", "StructKept"), ("asisv", "ValuesKept")):
+        for nm, inv in (("asis", "StructKept"), ("asisv", "ValuesKept"))[:2 if thorough else 1]:
             if R[nm].violated != inv:
                 raise vf.NoVerdict("negative control %s: expected TLC to violate %s, got %s %s" % (nm, inv, R[nm].violated, (R[nm].error or "")[:300]))
             chk.add_tlc(R[nm], "negative control (as-is screening) violates %s" % inv, count_states=False)
@@ -524,19 +525,24 @@ def run():
         recs = drive(sd, R["ego"], allreqs, nw)
         chk.cov["server_wall_s"] = round(time.time() - t0, 1)
         vf.log("drove %d requests on %d servers in %.1fs" % (len(allreqs), nw, time.time() - t0))
-        # 5. TLC judges every pair
-        n, bad = judge(chk, sd, recs, "contract over real request/outcome pairs")
-        if n != len(recs):
-            raise vf.NoVerdict("contract spec read %d of %d records" % (n, len(recs)))
-        badidx = {}
+        # 5. TLC judges every pair (the self-test's corrupted copies ride along at the end of the same log)
+        muts = selftest_records(recs)
+        n, bad = judge(chk, sd, recs + [m for _w, _i, m in muts], "contract over real request/outcome pairs")
+        if n != len(recs) + len(muts):
+            raise vf.NoVerdict("contract spec read %d of %d records" % (n, len(recs) + len(muts)))
+        badidx, mutbad = {}, {}
         for b in bad:
-            badidx[int(b["idx"]) - 1] = keystr(b["key"])
+            i = int(b["idx"]) - 1
+            if i < len(recs):
+                badidx[i] = keystr(b["key"])
+            else:
+                mutbad[i - len(recs)] = b["key"]["failing"]
         for i, k in sorted(badidx.items()):
             chk.violation(k, "the real server broke the contract: " + describe(recs[i]),
                           {"req": recs[i]["req"], "before": recs[i]["before"], "out": recs[i]["out"], "concrete": recs[i]["concrete"]})
         executed = [r for r in recs if 200 <= r["out"]["status"] <= 299]
         chk.cov["traces_validated_against_impl"] = len(recs)
-        chk.cov["evaluations"] = len(recs)
+        chk.cov["evaluations"] = len(recs) + len(muts)
         chk.cov["distinct_nontrivial"] = len({json.dumps(r["req"], sort_keys=True) for r in executed})
         chk.cov["requests"] = {"generated": len(reqs), "from_model_counterexamples": len(creqs), "executed_2xx": len(executed),
                                "rejected": len(recs) - len(executed), "contract_failures": len(badidx),
@@ -551,7 +557,7 @@ def run():
             if not any(r["req"]["op"] == op and (r["out"]["rows"] or r["out"]["after"] != r["before"]) for r in executed):
                 raise vf.NoVerdict("vacuity guard: no executed %s request read or changed a row" % op)
         # 6. binding self-test: outcomes corrupted in one field must be rejected by the contract
-        selftest(chk, sd, recs, badidx)
+        selftest_verdict(chk, muts, mutbad, badidx)
         for r in [x for x in recs if x["out"]["rows"]][:2] + [x for x in executed if x["req"]["op"] == "txupdate"][:1]:
             chk.sample({"kind": "request/outcome pair", "request": r["concrete"]["method"] + " " + r["concrete"]["path"],
                         "body": r["concrete"]["body"], "abstract": r["req"], "status": r["out"]["status"],
@@ -564,37 +570,51 @@ def run():
     return chk.finish()
 
 
-def selftest(chk, sd, recs, badidx):
-    good = [i for i in range(len(recs)) if i not in badidx]
-    rng = random.Random(vf.SEED)
-    rng.shuffle(good)
-    muts, want = [], []
-    def pick(pred):
-        for i in good:
+SELFTEST = [
+    ("rows", lambda x: x["out"]["status"] == 200 and x["req"]["op"] in ("read", "aread", "txrows") and len(x["out"]["rows"]) >= 2
+        and x["req"]["limit"] == "-" and x["req"]["start"] == "-",
+     lambda r: r["out"].__setitem__("rows", r["out"]["rows"][1:])),
+    ("touch", lambda x: x["out"]["status"] == 200 and x["req"]["op"] in ("read", "aread", "txrows") and x["out"]["touched"] == ["t1"],
+     lambda r: r["out"].__setitem__("touched", ["secrets", "t1"])),
+    ("state", lambda x: x["out"]["status"] == 200 and x["req"]["op"] in ("delete", "txdelete") and len(x["out"]["after"]) < len(x["before"]),
+     lambda r: r["out"].__setitem__("after", r["before"])),
+    ("count", lambda x: x["out"]["status"] == 200 and x["req"]["op"] in ("update", "txupdate") and x["out"]["after"] != x["before"],
+     lambda r: r["out"].__setitem__("count", r["out"]["count"] + 1)),
+    ("state", lambda x: x["out"]["status"] >= 400 and x["req"]["op"] in ("delete", "update", "txdelete", "txupdate"),
+     lambda r: r["out"].__setitem__("after", r["out"]["after"][1:])),
+]
+
+
+def selftest_records(recs):
+    """corrupted copies of real records: (clause that must fail, index of the original, corrupted record); several
+    candidates per kind because only a copy of a record the contract accepted proves anything"""
+    order = list(range(len(recs)))
+    random.Random(vf.SEED).shuffle(order)
+    out = []
+    for kind, (want, pred, mutate) in enumerate(SELFTEST):
+        n = 0
+        for i in order:
             if pred(recs[i]):
-                return json.loads(json.dumps(recs[i]))
-        raise vf.NoVerdict("self-test: no accepted record of the needed kind (driver too weak)")
-    r = pick(lambda x: x["out"]["status"] == 200 and x["req"]["op"] in ("read", "aread", "txrows") and len(x["out"]["rows"]) >= 2
-             and x["req"]["limit"] == "-" and x["req"]["start"] == "-")
-    r["out"]["rows"] = r["out"]["rows"][1:]
-    muts.append(r); want.append("rows")
-    r = pick(lambda x: x["out"]["status"] == 200 and x["req"]["op"] in ("read", "aread", "txrows") and x["out"]["touched"] == ["t1"])
-    r["out"]["touched"] = ["secrets", "t1"]
-    muts.append(r); want.append("touch")
-    r = pick(lambda x: x["out"]["status"] == 200 and x["req"]["op"] in ("delete", "txdelete") and len(x["out"]["after"]) < len(x["before"]))
-    r["out"]["after"] = r["before"]
-    muts.append(r); want.append("state")
-    r = pick(lambda x: x["out"]["status"] == 200 and x["req"]["op"] in ("update", "txupdate") and x["out"]["after"] != x["before"])
-    r["out"]["count"] += 1
-    muts.append(r); want.append("count")
-    r = pick(lambda x: x["out"]["status"] >= 400 and x["req"]["op"] in ("delete", "update", "txdelete", "txupdate"))
-    r["out"]["after"] = r["out"]["after"][1:]
-    muts.append(r); want.append("state")
-    n, bad = judge(chk, sd, muts, None)
-    got = {int(b["idx"]) - 1: b["key"]["failing"] for b in bad}
-    for i, w in enumerate(want):
-        if w not in (got.get(i) or []):
-            raise vf.NoVerdict("binding self-test failed: corrupted outcome #%d (%s) was accepted by the contract" % (i, w))
+                m = json.loads(json.dumps(recs[i]))
+                mutate(m)
+                out.append(((kind, want), i, m))
+                n += 1
+                if n == 6:
+                    break
+    return out
+
+
+def selftest_verdict(chk, muts, mutbad, badidx):
+    done = {}
+    for j, ((kind, want), i, _m) in enumerate(muts):
+        if i in badidx or kind in done:
+            continue                      # the original itself failed: its copy proves nothing
+        if want not in (mutbad.get(j) or []):
+            raise vf.NoVerdict("binding self-test failed: corrupted outcome kind #%d (%s) was accepted by the contract" % (kind, want))
+        done[kind] = True
+    if len(done) != len(SELFTEST):
+        raise vf.NoVerdict("self-test: no accepted record of kind(s) %s to corrupt (driver too weak)"
+                           % sorted(set(range(len(SELFTEST))) - set(done)))
     chk.cov["binding_selftest"] = "5 corrupted outcomes (dropped row, extra table opened, undeleted row, wrong count, change despite rejection) all rejected"
 
 
